@@ -102,12 +102,71 @@ def threaded(jobs, interval, decorate):
     return stats_of(p), counts, errors, p.enable_count
 
 
+ASRC = '''
+import asyncio
+
+async def awork(n):
+    acc = 0
+    for i in range(n):
+        acc += i
+        await asyncio.sleep(0)
+    return acc
+
+def swork(n):
+    t = 0
+    for i in range(n):
+        t += i
+    return t
+
+async def via_thread(n):
+    r = await asyncio.to_thread(wrapped_swork, n)
+    return r + 1
+'''
+
+
+def aio(sizes, to_thread):
+    """asyncio tasks (each runs in a copy of the context) of decorated coroutines interleaving on one thread, optionally a decorated function run in a
+    worker thread with the caller's context (asyncio.to_thread): expected = each piece alone"""
+    import asyncio
+
+    def fresh():
+        ns = {}
+        exec(compile(ASRC, 'c13_aio.py', 'exec'), ns)
+        p = line_profiler.LineProfiler()
+        ns['wrapped_awork'] = p(ns['awork'])
+        ns['wrapped_swork'] = p(ns['swork'])
+        ns['wrapped_via'] = p(ns['via_thread'])
+        return ns, p
+    # oracle: one piece after the other, each in an event loop of its own
+    ns, p = fresh()
+    for n in sizes:
+        asyncio.run(ns['wrapped_awork'](n))
+    if to_thread:
+        asyncio.run(ns['wrapped_via'](to_thread))
+    exp = stats_of(p)
+    ns, p = fresh()
+    errors = []
+
+    async def main():
+        coros = [ns['wrapped_awork'](n) for n in sizes]
+        if to_thread:
+            coros.append(ns['wrapped_via'](to_thread))
+        res = await asyncio.gather(*coros, return_exceptions=True)
+        errors.extend(repr(r) for r in res if isinstance(r, BaseException))
+    asyncio.run(main())
+    return exp, stats_of(p), {0: p.enable_count}, errors, p.enable_count
+
+
 def main():
     payload = json.load(sys.stdin)
     out = []
     for case in payload['cases']:
-        jobs = case['jobs']
+        jobs = case.get('jobs')
         try:
+            if case.get('aio'):
+                exp, got, counts, errors, main_count = aio(case['aio'], case.get('to_thread', 0))
+                out.append({'expected': exp, 'got': got, 'counts': counts, 'errors': errors, 'main_count': main_count})
+                continue
             exp = sequential(jobs)
             got, counts, errors, main_count = threaded(jobs, case['interval'], case.get('decorate', False))
             out.append({'expected': exp, 'got': got, 'counts': counts, 'errors': errors, 'main_count': main_count})
